@@ -27,7 +27,7 @@ PAYOUT_INV = {
 }
 
 
-def run_family(fam, tier, workers=16, timeout=2400):
+def run_family(fam, tier, workers=16, timeout=7200):
     f = FAMILIES[fam]
     tot = {"states": 0, "transitions": 0, "configs": [], "module": f["module"]}
     for cfg in f[tier]:
